@@ -400,7 +400,10 @@ func ruleCTOR3(c *Ctx) []Obligation {
 				obs = append(obs, o)
 				return
 			}
-			fail(UNDECIDED, "no package-level constructor named "+fn.Name())
+			// a builder without a constructor twin builds its object itself: the forwarding
+			// discipline (construct with the like-named constructor, store once, return) does not
+			// apply to it; what it allocates is held to ALLOC / RACE-3 / CTOR-2 like any other site
+			o.Verdict, o.Detail = EXEMPT, "no package-level constructor named "+fn.Name()+": not a forwarding builder"
 			obs = append(obs, o)
 			return
 		}
